@@ -815,3 +815,35 @@ Theorem meridiem_with_seconds_examples :
   (* the statement's own exclusion *)
   option_map fst (run_line default_config (s "12:30 am")) = Some (s "12:30:00 UTC").
 Proof. vm_compute. repeat split; reflexivity. Qed.
+
+(* ------------------------------------------------------------------------------------- *)
+(* KNOWN FINDING C11-K1: both operands of `T1 to T2` carry a zone on the line.  One pass of  *)
+(* the rule loop applies every rule once, in name order: time_with_timezone joins only the   *)
+(* first time with its zone, to_duration (later in the same pass) rewrites `time to time`,   *)
+(* and the second zone word is left over - the line fails.  With one zone, or with the first *)
+(* operand held in a variable, the difference of the two instants is computed.               *)
+(* ------------------------------------------------------------------------------------- *)
+Definition line_error (cfg : config float) (text : str) : option str :=
+  match execute LX CK1 cfg (s "en") text with
+  | Ok r => match er_lines r with
+            | [Some o] => match lo_result o with LErr m => Some m | _ => None end
+            | _ => None end
+  | Panic _ => None
+  end.
+Definition last_line (cfg : config float) (text : str) : option str :=
+  match execute LX CK1 cfg (s "en") text with
+  | Ok r => match rev (er_lines r) with
+            | Some o :: _ => match lo_result o with LOk out _ => Some out | _ => None end
+            | _ => None end
+  | Panic _ => None
+  end.
+
+Theorem both_zoned_refuted :
+  line_error default_config (s "10:00 EST to 12:00 CET") = Some (s "No more token") /\
+  option_map fst (run_line default_config (s "10:00 EST to 12:00")) = Some (s "3 hours") /\
+  option_map fst (run_line default_config (s "10:00 to 12:00 CET")) = Some (s "1 hour") /\
+  last_line default_config (s "a = 10:00 EST
+a to 12:00 CET") = Some (s "4 hours").
+Proof. vm_compute. repeat split; reflexivity. Qed.
+
+Print Assumptions both_zoned_refuted.
